@@ -315,6 +315,7 @@ func c11Cases(seed int64, tier string) []*c11Case {
 	var progs []*c10Prog
 	progs = append(progs, pool...)
 	progs = append(progs, c10StageModelledPool()...)
+	progs = append(progs, c10MapModelledPool()...) // map fragment: prediction "reads only" (C11_map_concurrent_equals_isolated); race detector + isolated outcomes
 	for _, p := range c10FailingPool() { // failing lazy constants; programs with a shared list ARGUMENT are out of scope (integer arguments)
 		if p.ListArg == "" && strings.HasSuffix(p.Name, "-append") {
 			progs = append(progs, p)
